@@ -5,7 +5,7 @@ classified by the reference reader), spec/TraceRobust.tla (recorded sweeps and s
 against the protocol, NeverDead evaluated in every state).
 (M) TLC checks the protocol (NeverDead, Responsive under fairness) and the totality of the reference
 reader on every enumerated string; (G) TLC enumerates every string up to length 4 (thorough 5; 6 for
-the cheap stages) over three 14-symbol alphabets and simulates longer ones; (B) every string goes
+the cheap stages) over four 14-symbol alphabets and simulates longer ones; (B) every string goes
 through every pure stage of the real code in-process (each stage under catch_unwind, each case under
 a watchdog), grammar- and mutation-based lines up to 200 characters run through -c / script / stdin of
 the real binary, random key sequences are typed at a pseudo-terminal prompt and followed by a
@@ -23,7 +23,8 @@ from common import NCPU, WORK, Report, ToolError, check_action_coverage, inproc_
 import ptydrv
 import tracecheck
 
-ALPHABETS = ("Quote", "Redir", "Arith")
+ALPHABETS = ("Quote", "Redir", "Arith", "Multi")
+MB = {"U": "\u00e9", "W": "\u4f60"}
 SPECIALS = "'\"`\\$(){}|&;<>#*,.~=^!?[] \t"
 
 SEED_LINES = [
@@ -184,7 +185,7 @@ def runner(rep, tier, seed, replay):
     n_full = 4 if tier == "quick" else 5
     strings = []
     for a in ALPHABETS:
-        r = run_tlc("MCRobust", "MCRobust_%s%d" % (a, n_full), on_replay=lambda v, a=a: strings.append((v["s"], v["complete"], a)),
+        r = run_tlc("MCRobust", "MCRobust_%s%d" % (a, n_full), on_replay=lambda v, a=a: strings.append(("".join(MB.get(ch, ch) for ch in v["s"]) if a == "Multi" else v["s"], v["complete"], a)),
                     keep_replays=False, timeout=3000, xmx="16g")
         if r.violation:
             raise ToolError("the reference reader is not total: " + r.violation[:1500])
@@ -193,9 +194,9 @@ def runner(rep, tier, seed, replay):
     n_enum = len(strings)
     # longer strings: TLC simulation of the same writer
     rs = run_tlc("MCRobust", "MCRobust_sim", simulate=5000 if tier == "quick" else 60000, depth=12, seed=seed, workers=1, coverage=False,
-                 on_replay=lambda v: strings.append((v["s"], v["complete"], "sim")), keep_replays=False, timeout=3000)
+                 on_replay=lambda v: strings.append(("".join(MB.get(ch, ch) for ch in v["s"]), v["complete"], "sim")), keep_replays=False, timeout=3000)
     rep.add_tlc(rs)
-    log("[C05] %d enumerated strings (<= %d over 3 alphabets), %d simulated longer ones" % (n_enum, n_full, len(strings) - n_enum))
+    log("[C05] %d enumerated strings (<= %d over 4 alphabets), %d simulated longer ones" % (n_enum, n_full, len(strings) - n_enum))
     wd = os.path.join(WORK, "c05-cwd-%d" % os.getpid())
     os.makedirs(wd, exist_ok=True)
     for fn in ("a", "aa", "1", ".h"):
@@ -380,7 +381,7 @@ def runner(rep, tier, seed, replay):
                         "a time-out is re-run once with a 10x budget before it is reported as a hang",
                         "a script whose text is rejected as a whole (syntax error) need not run the sentinel line; at the prompt the sentinel must run",
                         "a shell blocked in wait4 on a child started by the typed text is not a hang of the shell: the child is killed and the session goes on"]
-    return rep.finish(rule="every string up to length %d over each of three 14-symbol alphabets (quoting / substitution, redirection / brace, "
+    return rep.finish(rule="every string up to length %d over each of four 14-symbol alphabets (quoting / substitution, redirection / brace, multi-byte, "
                            "arithmetic) enumerated by TLC from spec/MCRobust.tla, through every pure stage in-process (line_to_cmds, parse_line, "
                            "tokens_to_line, tokens_to_redirections, Command::from_tokens, CommandLine::from_line incl. all expansions, "
                            "is_arithmetic / run_calculator, script grammar, escaped_word_start, complete_path, trim_multiline_prompts, "
